@@ -6,20 +6,34 @@ import core
 PROP = "C11"
 COUNT = {"quick": 600, "thorough": 4000, "search": 900}
 PARALLEL = True
-RULE = ("two case kinds. 'rw': a 3-D array of independent x,y,z sizes (quick: every shape <=5^3 once + random sizes 1..48 with "
-        "<=6000 voxels; thorough: every shape <=12^3 + random 1..48 with <=30000 voxels + a few up to 48x47x46), dtype "
-        "float32/float64/int16/int8, values that encode their own (i,j,k) index or seeded random values with float32 half-ulp "
-        "ties / overflow / subnormals / +-0 / inf / NaN planted, written with cryomap.write (ext mrc|rec|em, transpose, data_type) "
-        "and read with cryomap.read (transpose, data_type, same name or the reader's .ali/.st/.N aliases; a share of names with "
-        "unsupported extensions); the bytes are parsed by the harness's own MRC/EM parsers. 'conv': an EM or MRC file made by "
-        "the harness's own writers, converted by em2mrc/mrc2em with invert on/off, overwrite on/off, default/explicit/ill-named "
-        "output, output pre-existing or not. non-trivial = pairwise distinct x,y,z sizes and >=24 voxels and not a rejected name; "
-        "distinct = distinct case content")
+RULE = ("three case kinds. 'rw': a 3-D array of independent x,y,z sizes (quick: every shape <=5^3 once + random sizes 1..48 with "
+        "<=6000 voxels + 5 large maps >32768 voxels with nx<=32<nz such as 24x40x44 and one large converter input; thorough: every "
+        "shape <=12^3 + random 1..48 with <=30000 voxels + all 8 large maps + a few up to 48x47x46), dtype float32/float64/int16/int8, "
+        "values that encode their own (i,j,k) index, seeded random values with float32 half-ulp ties / overflow / subnormals / +-0 / "
+        "inf / NaN planted, or (whenever a float array meets an integer data_type) NON-integral values incl. ones a hair below a whole "
+        "number (2.99999999, float32 neighbours of integers); memory layout C / Fortran / transposed view / strided view / the array "
+        "cryomap.read returned for a harness-written file (read -> arithmetic -> write chain); written with cryomap.write (ext "
+        "mrc|rec|em, transpose, data_type) and read with cryomap.read (transpose, data_type, same name or the reader's .ali/.st/.N "
+        "aliases; a share of names with unsupported extensions; a share where the file is offered under a name of the OTHER container "
+        "format and must be refused); in ~35% of the calls every keyword that has its documented default is OMITTED (write(a,p), "
+        "read(p), em2mrc(p)), in another ~25% some are; the caller's array is compared before/after every call; a share reads twice, "
+        "editing the first result in between; the bytes are parsed by the harness's own MRC/EM parsers. 'conv': an EM (float32/"
+        "float64/int16/int8) or MRC (float32/int16/int8) file made by the harness's own writers, converted by em2mrc/mrc2em with "
+        "invert on/off, overwrite on/off, default/explicit/ill-named output, output pre-existing or not, stems ending in the letters "
+        "of the cut extension (volume.em, ctf_corr.mrc). 'seq' (G2): two or three calls in one process sharing the same ndarray "
+        "object (second file / other options), the same path (rewritten with another shape/dtype, then read), or the same converter "
+        "input and output (convert, then invert over it / be refused), each step judged like a single case. non-trivial = pairwise "
+        "distinct x,y,z sizes and >=24 voxels and not a rejected name; distinct = distinct case content")
 ASSUMPTIONS = [
     "mrcfile.write / emfile.write store the C-ordered array they are given with nx=shape[2], ny=shape[1], nz=shape[0] (Model.store); "
     "checked byte-wise on every case by the harness's own header parsers, and the parsers are cross-checked against the libraries by probes",
     "numpy astype(float32) = IEEE round-to-nearest-even = Lean Float.toFloat32 (compared bit for bit on every float64 case)",
-    "casts to int16/int8 (data_type option) are only generated for integral in-range values, where numpy's cast is exact (model: identity)",
+    "data_type=int16/int8 on float data is numpy's C conversion of the float64/float32 value itself: truncation toward zero, applied directly "
+    "(never through float32); Drv.cast implements that; generated for finite in-range values only (out-of-range / NaN are undefined in C); "
+    "probed on every run",
+    "a file offered to the reader of the other container format (EM bytes under x.mrc) is refused by mrcfile/emfile (Model.read: badFormat); probed",
+    "mrcfile writes mapc/mapr/maps = 1,2,3, nsymbt = 0, 'MAP ' and a little-endian stamp; emfile writes machine byte 6: library facts, probed on "
+    "every run, reported per case as a correspondence finding only",
     "contrast inversion of the most negative int8/int16 value (-128 / -32768) wraps in numpy; such voxels are not generated for invert cases",
     "file-system behaviour is modelled as a name->content map; that a refused write leaves the bytes on disk untouched is validated (hash), not proved",
 ]
@@ -33,20 +47,158 @@ NAN_BITS = 0x7FF8000000000000
 
 
 # ------------------------------------------------------------------ translator
+# Every anchor works on a NORMALISED copy of the function (`_norm_fn`): docstrings dropped, required positional
+# parameters renamed by position (_p0, _p1 ..), local variables / inner functions renamed in order of first
+# binding (_v0, _v1 ..), exception messages dropped.  Keyword-able parameters (those with a default) keep their
+# names: they are the public keywords and are anchored, with their defaults, by the `*Sig` items.  A missing
+# anchor is recorded (anchorsOk = false breaks `anchors_ok`) and the DOCUMENTED value is emitted, so that the
+# model keeps the documented behaviour and the correspondence run can still exhibit a concrete failing input.
+DOC = dict(
+    axes=[[2, 1, 0], "transpose and _p0.ndim == 3"], raxes=[[2, 1, 0], "transpose"],
+    write=dict(steps=["astype(data_type)", "transpose", "narrow", "dispatch"], narrow=("float64", "float32"),
+               mrc=[".mrc", ".rec"], em=[".em"], ow=True),
+    read=dict(exts=["mrc", "ali", "rec", "st"], numeric=True, em=[".em"]),
+    em2mrc=dict(inp=".em", out=".mrc", cut=2, app="mrc", factor=-1, plain=True),
+    mrc2em=dict(inp=".mrc", out=".em", cut=3, app="em", factor=-1, plain=True),
+    sig=dict(write=["_p0", "_p1", "transpose=True", "data_type=None", "overwrite=True"],
+             read=["_p0", "transpose=True", "data_type=None"],
+             em2mrc=["_p0", "invert=False", "overwrite=True", "output_name=None"],
+             mrc2em=["_p0", "invert=False", "overwrite=True", "output_name=None"]),
+)
+AXIS_OPS = ("transpose", "swapaxes", "moveaxis", "rollaxis", "T", "mT", "einsum", "permute_dims", "flip", "rot90")
+
+
+def _is_doc(st):
+    return isinstance(st, ast.Expr) and isinstance(st.value, ast.Constant) and isinstance(st.value.value, str)
+
+
+def _norm_fn(fn):
+    """normalised private copy of a FunctionDef (see the comment above)"""
+    fn = ast.parse(ast.unparse(fn)).body[0]
+    a = fn.args
+    pos = a.posonlyargs + a.args
+    nreq = len(pos) - len(a.defaults)
+    ren = {p.arg: f"_p{i}" for i, p in enumerate(pos[:nreq])}
+    keep = {p.arg for p in pos[nreq:]} | {p.arg for p in a.kwonlyargs}
+
+    def bind(name):
+        if name not in ren and name not in keep:
+            ren[name] = f"_v{sum(1 for v in ren.values() if v.startswith('_v'))}"
+
+    class Bind(ast.NodeVisitor):
+        def visit_Name(self, n):
+            if isinstance(n.ctx, (ast.Store, ast.Del)):
+                bind(n.id)
+
+        def visit_FunctionDef(self, n):
+            bind(n.name)
+            for q in n.args.posonlyargs + n.args.args + n.args.kwonlyargs:
+                bind(q.arg)
+            self.generic_visit(n)
+
+        def visit_ExceptHandler(self, n):
+            if n.name:
+                bind(n.name)
+            self.generic_visit(n)
+
+    class Ren(ast.NodeTransformer):
+        def visit_Name(self, n):
+            n.id = ren.get(n.id, n.id)
+            return n
+
+        def visit_arg(self, n):
+            n.arg = ren.get(n.arg, n.arg)
+            n.annotation = None
+            return n
+
+        def visit_FunctionDef(self, n):
+            n.name = ren.get(n.name, n.name)
+            n.returns = None
+            if n.body and _is_doc(n.body[0]):
+                n.body = n.body[1:] or [ast.Pass()]
+            self.generic_visit(n)
+            return n
+
+        def visit_Raise(self, n):
+            if isinstance(n.exc, ast.Call):
+                n.exc = n.exc.func
+            n.cause = None
+            return n
+
+        def visit_ExceptHandler(self, n):
+            if n.name:
+                n.name = ren.get(n.name, n.name)
+            self.generic_visit(n)
+            return n
+
+    if fn.body and _is_doc(fn.body[0]):
+        fn.body = fn.body[1:] or [ast.Pass()]
+    for st in fn.body:
+        Bind().visit(st)
+    name = fn.name
+    fn = Ren().visit(fn)
+    fn.name = name
+    return ast.parse(ast.unparse(fn)).body[0]
+
+
+def _body_dump(fn):
+    """the normalised body, one string per top-level statement"""
+    return [ast.unparse(st) for st in _norm_fn(fn).body]
+
+
+def _signature(fn):
+    """positional-required parameters by position, keyword-able ones as name=default"""
+    a = fn.args
+    pos = a.posonlyargs + a.args
+    nreq = len(pos) - len(a.defaults)
+    out = [f"_p{i}" for i in range(nreq)]
+    out += [f"{p.arg}={ast.unparse(d)}" for p, d in zip(pos[nreq:], a.defaults)]
+    if a.vararg:
+        out.append("*" + a.vararg.arg)
+    out += [f"{p.arg}={'<required>' if d is None else ast.unparse(d)}" for p, d in zip(a.kwonlyargs, a.kw_defaults)]
+    if a.kwarg:
+        out.append("**" + a.kwarg.arg)
+    return out
+
+
+def _sig_default(sig, key, doc):
+    for item in sig or []:
+        if item.startswith(key + "="):
+            return item.split("=", 1)[1]
+    return doc
+
+
 def _calls(node, attr):
     return [n for n in ast.walk(node) if isinstance(n, ast.Call) and isinstance(n.func, ast.Attribute) and n.func.attr == attr]
 
 
+def _axis_ops(fn):
+    """every expression that can permute / reverse axes: x.transpose(..), x.T, np.transpose(..), swapaxes, moveaxis,
+    einsum, flip ..; and slices with a negative step"""
+    hits = []
+    for n in ast.walk(fn):
+        if isinstance(n, ast.Attribute) and n.attr in AXIS_OPS:
+            hits.append(n)
+        elif isinstance(n, ast.Slice) and n.step is not None and ast.unparse(n.step).replace(" ", "") not in ("1", "None"):
+            hits.append(n)
+    return hits
+
+
 def _transpose_anchor(fn, what):
+    fn = _norm_fn(fn)
+    ops = _axis_ops(fn)
+    if len(ops) != 1:
+        raise core.AnchorMissing(f"{what}: expected exactly one axis-permuting expression, found {len(ops)}: "
+                                 + "; ".join(ast.unparse(o)[:60] for o in ops))
     hits = {}
     for st in ast.walk(fn):  # breadth first: an inner `if` overwrites the entry made by an enclosing one
         if isinstance(st, ast.If):
             for c in _calls(ast.Module(body=st.body, type_ignores=[]), "transpose"):
                 axes = [a.value for a in c.args if isinstance(a, ast.Constant)]
-                if len(axes) == len(c.args):
+                if len(axes) == len(c.args) and not c.keywords and c.func is ops[0]:
                     hits[id(c)] = (axes, ast.unparse(st.test))
     if len(hits) != 1:
-        raise core.AnchorMissing(f"{what}: expected exactly one guarded .transpose(<consts>), found {len(hits)}")
+        raise core.AnchorMissing(f"{what}: the axis-permuting expression `{ast.unparse(ops[0])[:60]}` is not a guarded .transpose(<consts>)")
     return list(hits.values())[0]
 
 
@@ -77,24 +229,27 @@ def _np_name(node):
 
 
 def _write_anchors(src):
-    fn = src.find(REL, "write")
+    fn = _norm_fn(src.find(REL, "write"))
     steps, narrow, mrc_exts, em_exts, ow = [], None, None, None, True
     for st in fn.body:
         if not isinstance(st, ast.If):
+            steps.append("other:" + ast.unparse(st)[:80])   # every top-level statement is accounted for
             continue
         t = ast.unparse(st.test)
         body_txt = ast.unparse(ast.Module(body=st.body, type_ignores=[]))
-        if "data_type is not None" in t and "astype(data_type)" in body_txt:
+        if t == "data_type is not None" and body_txt == "_p0 = _p0.astype(data_type)" and not st.orelse:
             steps.append("astype(data_type)")
         elif ".transpose(" in body_txt:
             steps.append("transpose")
         elif isinstance(st.test, ast.Compare) and ".dtype" in t and "astype" in body_txt:
-            if not (len(st.test.ops) == 1 and isinstance(st.test.ops[0], ast.Eq)):
-                raise core.AnchorMissing("write: narrowing test is not `dtype == <type>`")
-            if st.orelse or narrow is not None:
+            if not (len(st.test.ops) == 1 and isinstance(st.test.ops[0], ast.Eq) and ast.unparse(st.test.left) == "_p0.dtype"):
+                raise core.AnchorMissing("write: narrowing test is not `<data>.dtype == <type>`")
+            if st.orelse or narrow is not None or len(st.body) != 1:
                 raise core.AnchorMissing("write: more than the one documented implicit conversion (float64 -> float32)")
             frm = _np_name(st.test.comparators[0])
             to = _np_name(_calls(ast.Module(body=st.body, type_ignores=[]), "astype")[0].args[0])
+            if body_txt != f"_p0 = _p0.astype({ast.unparse(_calls(st, 'astype')[0].args[0])})":
+                raise core.AnchorMissing("write: narrowing statement is not `<data> = <data>.astype(<type>)`")
             narrow = (frm, to)
             steps.append("narrow")
         elif "endswith" in t:
@@ -102,6 +257,8 @@ def _write_anchors(src):
             node, mrc_exts, em_exts = st, [], []
             while isinstance(node, ast.If):
                 exts = _endswith_consts(node.test)
+                if any(ast.unparse(c.func.value) != "_p1" for c in _calls(node.test, "endswith")):
+                    raise core.AnchorMissing("write: extension test not on the file name")
                 cm, ce = _has_call(node.body, "mrcfile", "write"), _has_call(node.body, "emfile", "write")
                 for c in (cm, ce):
                     if c is not None:
@@ -114,30 +271,37 @@ def _write_anchors(src):
                 else:
                     raise core.AnchorMissing("write: extension branch without mrcfile.write/emfile.write")
                 node = node.orelse[0] if len(node.orelse) == 1 else None
+        else:
+            steps.append("other:if " + t[:80])
     if narrow is None or mrc_exts is None:
         raise core.AnchorMissing("write: narrowing or extension dispatch not found")
     return dict(steps=steps, narrow=narrow, mrc=mrc_exts, em=em_exts, ow=ow)
 
 
 def _read_anchors(src):
-    fn = src.find(REL, "read")
-    vm = src.find(REL, "read.valid_mrc")
+    fn = _norm_fn(src.find(REL, "read"))
+    inner = [n for n in ast.walk(fn) if isinstance(n, ast.FunctionDef) and n is not fn]
+    if len(inner) != 1:
+        raise core.AnchorMissing("read: expected the one inner name-pattern function")
+    vm = inner[0]
     pats = [n.value.value for n in ast.walk(vm) if isinstance(n, ast.Assign) and isinstance(n.value, ast.Constant) and isinstance(n.value.value, str)]
     if len(pats) != 1:
-        raise core.AnchorMissing("read.valid_mrc: pattern literal")
+        raise core.AnchorMissing("read: pattern literal of the inner function")
     m = re.fullmatch(r"\\\.\(([a-z|]+)\)(\(\\\.\\d\+\)\?)?\$", pats[0])
     if not m:
-        raise core.AnchorMissing(f"read.valid_mrc: pattern {pats[0]!r} is not \\.(a|b|..)(\\.\\d+)?$")
+        raise core.AnchorMissing(f"read: pattern {pats[0]!r} is not \\.(a|b|..)(\\.\\d+)?$")
     if not any(isinstance(n, ast.Attribute) and n.attr == "search" for n in ast.walk(vm)):
-        raise core.AnchorMissing("read.valid_mrc: re.search")
+        raise core.AnchorMissing("read: the inner function does not use re.search")
     em = None
     for st in ast.walk(fn):
-        if isinstance(st, ast.If) and "valid_mrc(" in ast.unparse(st.test):
+        if isinstance(st, ast.If) and ast.unparse(st.test) == f"{vm.name}(_p0)":
             if _has_call(st.body, "mrcfile", "open") is None:
                 raise core.AnchorMissing("read: mrc branch does not call mrcfile.open")
             nxt = st.orelse[0] if len(st.orelse) == 1 and isinstance(st.orelse[0], ast.If) else None
             if nxt is None or _has_call(nxt.body, "emfile", "read") is None:
                 raise core.AnchorMissing("read: em branch")
+            if any(ast.unparse(c.func.value) != "_p0" for c in _calls(nxt.test, "endswith")):
+                raise core.AnchorMissing("read: extension test not on the file name")
             em = _endswith_consts(nxt.test)
     if em is None:
         raise core.AnchorMissing("read: extension dispatch")
@@ -145,7 +309,7 @@ def _read_anchors(src):
 
 
 def _conv_anchors(src, name):
-    fn = src.find(REL, name)
+    fn = _norm_fn(src.find(REL, name))
     d = dict(inp=None, out=None, cut=None, app=None, factor=None, plain=True)
     for st in ast.walk(fn):
         if isinstance(st, ast.If):
@@ -153,7 +317,7 @@ def _conv_anchors(src, name):
             if isinstance(t, ast.UnaryOp) and isinstance(t.op, ast.Not) and "endswith" in ast.unparse(t) and any(isinstance(b, ast.Raise) for b in st.body):
                 target = ast.unparse(t.operand).split(".endswith")[0]
                 ext = _endswith_consts(t)[0]
-                if target == "map_name":
+                if target == "_p0":
                     d["inp"] = ext
                 elif target == "output_name":
                     d["out"] = ext
@@ -163,39 +327,65 @@ def _conv_anchors(src, name):
                         d["factor"] = int(ast.literal_eval(ast.unparse(n.right)))
         if isinstance(st, ast.Assign) and ast.unparse(st.targets[0]) == "output_name" and isinstance(st.value, ast.BinOp) and isinstance(st.value.op, ast.Add):
             l, r = st.value.left, st.value.right
-            if isinstance(l, ast.Subscript) and ast.unparse(l.value) == "map_name" and isinstance(l.slice, ast.Slice) and l.slice.lower is None and l.slice.step is None:
+            if isinstance(l, ast.Subscript) and ast.unparse(l.value) == "_p0" and isinstance(l.slice, ast.Slice) and l.slice.lower is None and l.slice.step is None:
                 d["cut"] = -int(ast.literal_eval(ast.unparse(l.slice.upper)))
                 d["app"] = r.value if isinstance(r, ast.Constant) else None
     reads = [n for n in ast.walk(fn) if isinstance(n, ast.Call) and isinstance(n.func, ast.Name) and n.func.id == "read"]
     writes = [n for n in ast.walk(fn) if isinstance(n, ast.Call) and isinstance(n.func, ast.Name) and n.func.id == "write"]
-    d["plain"] = (len(reads) == 1 and ast.unparse(reads[0]) == "read(map_name)" and len(writes) == 1
-                  and ast.unparse(writes[0]) == "write(data_to_write, output_name, overwrite=overwrite)")
+    others = [ast.unparse(n.func) for n in ast.walk(fn) if isinstance(n, ast.Call) and isinstance(n.func, ast.Name)
+              and n.func.id not in ("read", "write", "isinstance", "ValueError")]
+    var = None
+    for st in fn.body:
+        if isinstance(st, ast.Assign) and len(st.targets) == 1 and isinstance(st.targets[0], ast.Name) and ast.unparse(st.value) == "read(_p0)":
+            var = st.targets[0].id
+    d["plain"] = (len(reads) == 1 and len(writes) == 1 and var is not None and not others
+                  and ast.unparse(writes[0]) == f"write({var}, output_name, overwrite=overwrite)")
     if any(d[k] is None for k in ("inp", "out", "cut", "app", "factor")) or d["cut"] < 0:
         raise core.AnchorMissing(f"{name}: {d}")
     return d
 
 
+def _lean_str(s):
+    return '"' + s.replace("\\", "\\\\").replace('"', '\\"').replace("\n", "\\n") + '"'
+
+
+def _lean_strs(xs):
+    return "[" + ", ".join(_lean_str(x) for x in xs) + "]"
+
+
 def translate(src):
-    w_ax = src.anchor("write:transpose-axes", lambda: list(_transpose_anchor(src.find(REL, "write"), "write")))
-    r_ax = src.anchor("read:transpose-axes", lambda: list(_transpose_anchor(src.find(REL, "read"), "read")))
+    w_ax = src.anchor("write:transpose-axes/guard/only-axis-op", lambda: list(_transpose_anchor(src.find(REL, "write"), "write")))
+    r_ax = src.anchor("read:transpose-axes/guard/only-axis-op", lambda: list(_transpose_anchor(src.find(REL, "read"), "read")))
     w = src.anchor("write:steps/narrowing/extension-dispatch", lambda: _write_anchors(src))
-    r = src.anchor("read:valid_mrc-pattern/extension-dispatch", lambda: _read_anchors(src))
+    r = src.anchor("read:name-pattern/extension-dispatch", lambda: _read_anchors(src))
     e2m = src.anchor("em2mrc:names/factor/calls", lambda: _conv_anchors(src, "em2mrc"))
     m2e = src.anchor("mrc2em:names/factor/calls", lambda: _conv_anchors(src, "mrc2em"))
-    w_ax = w_ax or [[], ""]
-    r_ax = r_ax or [[], ""]
-    w = w or dict(steps=[], narrow=("", ""), mrc=[], em=[], ow=False)
-    r = r or dict(exts=[], numeric=False, em=[])
-    z = dict(inp="", out="", cut=0, app="", factor=0, plain=False)
-    e2m, m2e = e2m or z, m2e or z
+    sig, body = {}, {}
+    for f in ("write", "read", "em2mrc", "mrc2em"):
+        sig[f] = src.anchor(f"{f}:signature(keywords and defaults)", lambda f=f: _signature(src.find(REL, f))) or DOC["sig"][f]
+    for f in ("write", "read", "em2mrc", "mrc2em", "invert_contrast"):
+        body[f] = src.anchor(f"{f}:normalised-body", lambda f=f: _body_dump(src.find(REL, f))) or []
+    w_ax = w_ax or DOC["axes"]
+    r_ax = r_ax or DOC["raxes"]
+    w = w or DOC["write"]
+    r = r or DOC["read"]
+    e2m, m2e = e2m or DOC["em2mrc"], m2e or DOC["mrc2em"]
     B = lambda b: "true" if b else "false"
-    L = core.lean_str_list
-    S = core.lean_str
+    L = _lean_strs
+    S = _lean_str
+    PB = lambda v, doc: B({"True": True, "False": False}.get(v, doc))
 
-    def conv(prefix, d):
+    def conv(prefix, d, sg):
         return (f"def {prefix}In : String := {S(d['inp'])}\ndef {prefix}Out : String := {S(d['out'])}\n"
                 f"def {prefix}Cut : Nat := {d['cut']}\ndef {prefix}Append : String := {S(d['app'])}\n"
-                f"def {prefix}Factor : Int := {d['factor']}\ndef {prefix}Plain : Bool := {B(d['plain'])}\n")
+                f"def {prefix}Factor : Int := {d['factor']}\ndef {prefix}Plain : Bool := {B(d['plain'])}\n"
+                f"def {prefix}Sig : List String := {L(sg)}\n"
+                f"def {prefix}DefaultInvert : Bool := {PB(_sig_default(sg, 'invert', 'False'), False)}\n"
+                f"def {prefix}DefaultOverwrite : Bool := {PB(_sig_default(sg, 'overwrite', 'True'), True)}\n"
+                f"def {prefix}DefaultOutput : String := {S(_sig_default(sg, 'output_name', 'None'))}\n")
+
+    def dflt_dtype(v):
+        return v.split(".")[-1]   # np.float32 -> float32 ; None -> None
 
     return f"""-- GENERATED by harness/props/c11.py from {REL}; do not edit
 namespace CryoCat.Gen.C11
@@ -213,7 +403,19 @@ def writePassesOverwrite : Bool := {B(w['ow'])}
 def readMrcExts : List String := {L(r['exts'])}
 def readNumericSuffix : Bool := {B(r['numeric'])}
 def readEmExts : List String := {L(r['em'])}
-{conv('em2mrc', e2m)}{conv('mrc2em', m2e)}end CryoCat.Gen.C11
+def writeSig : List String := {L(sig['write'])}
+def writeDefaultTranspose : Bool := {PB(_sig_default(sig['write'], 'transpose', 'True'), True)}
+def writeDefaultDataType : String := {S(dflt_dtype(_sig_default(sig['write'], 'data_type', 'None')))}
+def writeDefaultOverwrite : Bool := {PB(_sig_default(sig['write'], 'overwrite', 'True'), True)}
+def readSig : List String := {L(sig['read'])}
+def readDefaultTranspose : Bool := {PB(_sig_default(sig['read'], 'transpose', 'True'), True)}
+def readDefaultDataType : String := {S(dflt_dtype(_sig_default(sig['read'], 'data_type', 'None')))}
+{conv('em2mrc', e2m, sig['em2mrc'])}{conv('mrc2em', m2e, sig['mrc2em'])}def writeBody : List String := {L(body['write'])}
+def readBody : List String := {L(body['read'])}
+def em2mrcBody : List String := {L(body['em2mrc'])}
+def mrc2emBody : List String := {L(body['mrc2em'])}
+def invertContrastBody : List String := {L(body['invert_contrast'])}
+end CryoCat.Gen.C11
 """
 
 
@@ -224,8 +426,12 @@ ITEM = {"int8": 1, "int16": 2, "float32": 4, "float64": 8, "int32": 4, "uint16":
 
 
 def _bits(flat):
-    """1-D numpy array -> list of binary64 bit patterns (NaN canonical)"""
-    v = np.asarray(flat).astype(np.float64)
+    """1-D numpy array -> list of binary64 bit patterns (NaN canonical); None for anything that is not a real
+    number type (text / object / complex / bool arrays are reported by their dtype, never coerced)"""
+    flat = np.asarray(flat)
+    if flat.dtype.kind not in "iuf":
+        return None
+    v = flat.astype(np.float64)
     b = v.view(np.uint64).copy()
     b[np.isnan(v)] = NAN_BITS
     return b.tolist()
@@ -324,7 +530,17 @@ def build(case):
     fill = case["fill"]
     lo, hi = fill.get("lo", -100), fill.get("hi", 100)
     i, j, k = np.meshgrid(np.arange(x), np.arange(y), np.arange(z), indexing="ij")
-    if fill["mode"] == "index":
+    if fill["mode"] == "frac":
+        # non-integral values for the integer casts: a whole number n (strictly inside the target range) plus an
+        # offset that keeps trunc(n+offset) in range; a share sits a hair below a whole number (toward zero from it)
+        g = np.random.default_rng(fill["seed"])
+        n = g.integers(lo + 1, hi, size=(x, y, z)).astype(np.float64)
+        off = np.array(FRAC_OFFSETS)[g.integers(0, len(FRAC_OFFSETS), size=(x, y, z))]
+        a = (n + off).astype(NP[dt])
+        if dt == "float32":   # the float32 neighbours of whole numbers (n + 0.99999999 itself rounds to n + 1)
+            m = g.random((x, y, z)) < 0.3
+            a[m] = np.nextafter(n.astype(np.float32), np.float32(0))[m]
+    elif fill["mode"] == "index":
         ca, cb, cc, off = fill["coef"]
         v = ca * i + cb * j + cc * k + off
         if dt.startswith("int") or fill.get("integral"):
@@ -346,8 +562,26 @@ def build(case):
     return a
 
 
+FRAC_OFFSETS = [0.99999999, -0.99999999, 0.9999999999, -0.9999999999, 0.5, -0.5, 0.25, -0.75, 0.0, 1e-9, -1e-9, 0.999, -0.001]
+LAYOUTS = ["C", "F", "tview", "strided", "from_read"]
+
+
+def _apply_layout(a, layout):
+    """the same (x,y,z) values in another memory layout (the statement is about values, not strides)"""
+    if layout == "F":
+        return np.asfortranarray(a)
+    if layout == "tview":    # a transposed view of a C-ordered (z,y,x) array: what `something.transpose(2,1,0)` / `.T` gives
+        return np.ascontiguousarray(a.transpose(2, 1, 0)).transpose(2, 1, 0)
+    if layout == "strided":  # every second element of a larger buffer along x and z
+        big = np.zeros((2 * a.shape[0], a.shape[1], 2 * a.shape[2] + 1), dtype=a.dtype)
+        v = big[::2, :, 1::2]
+        v[...] = a
+        return v
+    return a
+
+
 def _arr_json(a):
-    return dict(shape=list(a.shape), dtype=a.dtype.name, data=_bits(a.reshape(-1)))
+    return dict(shape=list(a.shape), dtype=a.dtype.name, data=_bits(np.ascontiguousarray(a).reshape(-1)))
 
 
 # ------------------------------------------------------------------ generators
@@ -362,6 +596,10 @@ def _fill(rng, dtype, others, invert=False):
             lo += 1
         f.update(lo=lo, hi=hi)
         if not dtype.startswith("int"):
+            if rng.random() < 0.65 and hi - lo > 4:
+                # float -> int cast of NON-integral values: numpy truncates the value itself toward zero
+                f.update(mode="frac", seed=rng.randrange(1 << 30))
+                return f
             f["integral"] = True
     if rng.random() < 0.6:
         f.update(mode="index", coef=[1, rng.choice([50, 7, 3]), rng.choice([2500, 61, 11]), rng.randint(-5, 5)])
@@ -399,13 +637,31 @@ def _shape(rng, cap, top=48):
 
 GOOD_EXT = ["mrc", "rec", "em"]
 BAD_WRITE_NAMES = ["vol.map", "vol.mrcs", "vol.EM", "vol.mrc.1", "vol.st", "volmrc", "vol.em.bak", "vol.rec ", "vol"]
+# documented signature defaults (written by hand): what an omitted keyword means
+DEFAULTS_RW = dict(transpose=True, data_type=None, rtranspose=True, rdata_type=None)
+DEFAULTS_CONV = dict(invert=False, overwrite=True, output=None)
+# shapes above 32**3 voxels (and above 16**3 / 64**2 rows) whose x extent needs fewer tiles than z: quick tier too
+LARGE_SHAPES = [(24, 40, 44), (32, 33, 33), (20, 47, 48), (30, 31, 48), (17, 46, 45), (44, 40, 24), (8, 33, 40), (16, 17, 48)]
+# converter stems: also stems ending in the letters of the extension that is cut (e/m/r/c/.)
+STEMS = ["vol", "my.vol", "a.em", "t_01.mrc", "x", "volume", "ribosome", "frame", "ctf_corr", "subtomo_c", "mem", "cc.", "e", "tomo.m", "mrc"]
+
+
+def _omit(rng, case, defaults):
+    """G1: which keywords the call leaves out (only ones whose value is the documented default)"""
+    at_default = [k for k, v in defaults.items() if case.get(k) == v]
+    k = rng.random()
+    if k < 0.35:
+        return at_default                       # keyword-less wherever possible: write(a, p) / read(p) / em2mrc(p)
+    if k < 0.6:
+        return [q for q in at_default if rng.random() < 0.5]
+    return []
 
 
 def _rw_case(rng, shape, dtype=None, ext=None, simple=False):
     dtype = dtype or rng.choice(DTYPES)
     ext = ext or rng.choice(GOOD_EXT)
     case = dict(kind="rw", shape=list(shape), dtype=dtype, name="vol." + ext, transpose=True, rtranspose=True,
-                data_type=None, rdata_type=None, rname="same")
+                data_type=None, rdata_type=None, rname="same", layout="C", reread=False)
     if not simple:
         if rng.random() < 0.2:
             case["transpose"] = rng.random() < 0.5
@@ -421,6 +677,12 @@ def _rw_case(rng, shape, dtype=None, ext=None, simple=False):
             case["rname"] = rng.choice(["numeric", "ali", "st", "rec", "mrc", "st.numeric"])
         elif k < 0.20:
             case["rname"] = rng.choice(["bad.map", "bad.mrcs", "bad.EM", "bad.mrc.", "bad.rec.1a", "bad.em.1"])
+        elif k < 0.24:
+            case["rname"] = "cross"             # the file is offered to the reader of the OTHER container format
+        if rng.random() < 0.35:
+            case["layout"] = rng.choice(LAYOUTS[1:])
+        case["reread"] = rng.random() < 0.1
+    case["omit"] = _omit(rng, case, DEFAULTS_RW)
     others = [t for t in (case["data_type"], case["rdata_type"]) if t]
     case["fill"] = _fill(rng, dtype, others)
     nvox = shape[0] * shape[1] * shape[2]
@@ -431,11 +693,12 @@ def _rw_case(rng, shape, dtype=None, ext=None, simple=False):
 
 def _conv_case(rng, shape):
     which = rng.choice(["em2mrc", "mrc2em"])
-    dtype = rng.choice(["float32", "int16", "int8", "float32"])
+    # EM files hold float64 too (EM type code 9); MRC has no float64 mode
+    dtype = rng.choice(["float32", "int16", "int8", "float32"] + (["float64", "float64"] if which == "em2mrc" else []))
     invert = rng.random() < 0.5
     in_ext = "em" if which == "em2mrc" else "mrc"
     out_ext = "mrc" if which == "em2mrc" else "em"
-    stem = rng.choice(["vol", "my.vol", "a.em", "t_01.mrc", "x"])
+    stem = rng.choice(STEMS)
     case = dict(kind="conv", which=which, shape=list(shape), dtype=dtype, invert=invert, overwrite=rng.random() < 0.5,
                 in_name=f"{stem}.{in_ext}", output=None, exists=rng.random() < 0.5)
     k = rng.random()
@@ -445,9 +708,50 @@ def _conv_case(rng, shape):
         case["output"] = rng.choice(["out." + in_ext, "out.map", "out", "out." + out_ext + "x", "out.rec"])
     if rng.random() < 0.06:
         case["in_name"] = stem + rng.choice([".rec", ".map", "." + out_ext, ".EM"])
+    if rng.random() < 0.15:     # the plain call em2mrc(p) / mrc2em(p)
+        case.update(invert=False, overwrite=True, output=None)
+    case["omit"] = _omit(rng, case, DEFAULTS_CONV)
     case["fill"] = _fill(rng, dtype, [], invert=invert)
     case["plant"] = _plant(rng, dtype, shape[0] * shape[1] * shape[2], allow=True, invert=invert)
     return case
+
+
+def _seq_case(rng, cap):
+    """G2: two or three library calls in ONE process that share a caller-owned array object or a file path"""
+    mode = rng.choice(["same-array", "same-path", "conv-twice", "conv-refuse-after-conv"])
+    shape = _shape(rng, cap)
+    if mode == "same-array":
+        s1 = _rw_case(rng, shape)
+        s1.update(rname="same", layout=rng.choice(["C", "C", "F", "tview"]))
+        steps = [s1]
+        for i in range(rng.randint(1, 2)):
+            s2 = dict(s1, name=f"second{i}." + rng.choice(GOOD_EXT))
+            s2["transpose"] = s2["rtranspose"] = rng.random() < 0.8
+            # a cast that is exact for the shared values: None, or (for floats) the other float type
+            s2["data_type"] = None if s1["dtype"] in IRANGE or s1["fill"].get("mode") == "frac" else rng.choice([None, "float32", "float64"])
+            s2["rdata_type"] = None
+            s2["omit"] = _omit(rng, s2, DEFAULTS_RW)
+            s2["reread"] = rng.random() < 0.5
+            steps.append(s2)
+    elif mode == "same-path":
+        s1 = _rw_case(rng, shape)
+        s1["rname"] = "same"
+        s2 = _rw_case(rng, _shape(rng, cap), ext=s1["name"].rsplit(".", 1)[-1])
+        s2.update(name=s1["name"], rname="same", reread=True)
+        steps = [s1, s2]
+    else:
+        c1 = _conv_case(rng, shape)
+        stem = rng.choice(STEMS)
+        in_ext, out_ext = ("em", "mrc") if c1["which"] == "em2mrc" else ("mrc", "em")
+        c1.update(in_name=f"{stem}.{in_ext}", output=rng.choice([None, "out." + out_ext]), exists=False, invert=False, overwrite=True)
+        c1["omit"] = _omit(rng, c1, DEFAULTS_CONV)
+        c1["fill"] = _fill(rng, c1["dtype"], [], invert=True)
+        c1["plant"] = []
+        # second call: same input path and output path, the output of the first call is there
+        c2 = dict(c1, invert=True, exists=True, overwrite=(mode == "conv-twice"))
+        c2["omit"] = _omit(rng, c2, DEFAULTS_CONV)
+        steps = [c1, c2]
+    return dict(kind="seq", mode=mode, steps=steps, shape=steps[0]["shape"], dtype=steps[0]["dtype"], fill=steps[0]["fill"])
 
 
 def generate(rng, tier, n):
@@ -466,18 +770,33 @@ def generate(rng, tier, n):
                 d, e = combos[c % len(combos)]
                 c += 1
                 yield _rw_case(rng, (x, y, z), d, e, simple=(tier == "thorough" and rng.random() < 0.5))
+    if tier in ("quick", "thorough"):
+        # large non-cubic maps (tiled / blocked code paths switch on above some voxel count)
+        large = LARGE_SHAPES if tier == "thorough" else LARGE_SHAPES[:2] + rng.sample(LARGE_SHAPES[2:], 3)
+        for i, s in enumerate(large):
+            d, e = combos[(c + 5 * i) % len(combos)]
+            case = _rw_case(rng, s, d, e, simple=True)
+            case["omit"] = _omit(rng, case, DEFAULTS_RW)
+            yield case
+        case = _conv_case(rng, rng.choice(LARGE_SHAPES[:6]))
+        case.update(output=None, exists=False, plant=[])
+        case["in_name"] = "big." + ("em" if case["which"] == "em2mrc" else "mrc")
+        case["omit"] = _omit(rng, case, DEFAULTS_CONV)
+        yield case
     if tier == "thorough":
         for s in [(48, 47, 46), (1, 48, 47), (48, 1, 2), (2, 3, 48), (48, 48, 48), (47, 2, 48)]:
             yield _rw_case(rng, s)
     for t in range(n):
         k = rng.random()
-        if k < 0.62:
+        if k < 0.55:
             yield _rw_case(rng, _shape(rng, cap))
-        elif k < 0.67:
+        elif k < 0.60:
             case = _rw_case(rng, _shape(rng, 200))
             case["name"] = rng.choice(BAD_WRITE_NAMES)
             case["rname"] = "same"
             yield case
+        elif k < 0.68:
+            yield _seq_case(rng, min(cap, 2000))
         else:
             yield _conv_case(rng, _shape(rng, min(cap, 4000)))
 
@@ -487,22 +806,39 @@ def search_cases(rng, broken, anchors):
     for dtype in DTYPES:
         for ext in GOOD_EXT:
             for tr in (True, False):
-                c = _rw_case(rng, (2, 3, 4), dtype, ext, simple=True)
-                c["transpose"] = c["rtranspose"] = tr
-                yield c
+                for omit in ([], list(DEFAULTS_RW)):
+                    for layout in ("C", "F"):
+                        c = _rw_case(rng, (2, 3, 4), dtype, ext, simple=True)
+                        c["transpose"] = c["rtranspose"] = tr
+                        c["layout"] = layout
+                        c["omit"] = [k for k in omit if c[k] == DEFAULTS_RW[k]]
+                        yield c
+    for s in LARGE_SHAPES[:3]:
+        yield _rw_case(rng, s, "float32", "mrc", simple=True)
     for which in ("em2mrc", "mrc2em"):
         for inv in (False, True):
             for ow in (False, True):
                 for ex in (False, True):
                     for outp in (None, "out." + ("mrc" if which == "em2mrc" else "em")):
-                        c = _conv_case(rng, (2, 3, 4))
-                        c.update(which=which, invert=inv, overwrite=ow, exists=ex, output=outp,
-                                 in_name="vol." + ("em" if which == "em2mrc" else "mrc"), dtype="float32", plant=[])
-                        c["fill"] = _fill(rng, "float32", [], invert=inv)
-                        yield c
+                        for stem in ("vol", "volume", "ctf_corr"):
+                            c = _conv_case(rng, (2, 3, 4))
+                            c.update(which=which, invert=inv, overwrite=ow, exists=ex, output=outp,
+                                     in_name=stem + "." + ("em" if which == "em2mrc" else "mrc"), dtype="float32", plant=[])
+                            c["omit"] = _omit(rng, c, DEFAULTS_CONV)
+                            c["fill"] = _fill(rng, "float32", [], invert=inv)
+                            yield c
 
 
 def shrink(case):
+    if case["kind"] == "seq":
+        for st in case["steps"]:
+            yield st                      # a single call that already fails is the better reproducer
+        if len(case["steps"]) > 2:
+            yield dict(case, steps=case["steps"][:2])
+        small = [dict(st, shape=[2, 3, 4], plant=[]) for st in case["steps"]]
+        if any(st["shape"] != [2, 3, 4] for st in case["steps"]) and case["mode"] != "same-path":
+            yield dict(case, steps=small, shape=[2, 3, 4])
+        return
     s = case["shape"]
     for cand in ([2, 3, 4], [1, 2, 3], [1, 1, 2], [2, 1, 1], [1, 2, 1]):
         if s[0] * s[1] * s[2] > cand[0] * cand[1] * cand[2]:
@@ -511,22 +847,27 @@ def shrink(case):
         if s[ax] > 1:
             t = list(s); t[ax] = max(1, s[ax] // 2)
             yield dict(case, shape=t, plant=[])
+            t = list(s); t[ax] = s[ax] - 1
+            yield dict(case, shape=t, plant=[])
     if case.get("plant"):
         yield dict(case, plant=[])
         for i in range(len(case["plant"])):
             yield dict(case, plant=case["plant"][:i] + case["plant"][i + 1:])
-    if case["fill"].get("mode") != "index":
+    if case["fill"].get("mode") not in ("index", "frac"):
         f = dict(case["fill"], mode="index", coef=[1, 50, 2500, 0]); f.pop("seed", None); f["scale"] = 1.0
         yield dict(case, fill=f)
+    if case.get("omit"):
+        yield dict(case, omit=[])
     if case["kind"] == "rw":
-        for k, v in (("data_type", None), ("rdata_type", None), ("rname", "same"), ("transpose", True), ("rtranspose", True)):
-            if case.get(k) != v:
+        for k, v in (("data_type", None), ("rdata_type", None), ("rname", "same"), ("transpose", True), ("rtranspose", True),
+                     ("layout", "C"), ("reread", False)):
+            if case.get(k, v) != v:
                 yield dict(case, **{k: v})
         if case["name"].startswith(("my.", "tomo", "a.mrc", ".hidden", "x")) and case["name"].rsplit(".", 1)[-1] in GOOD_EXT:
             yield dict(case, name="vol." + case["name"].rsplit(".", 1)[-1])
     else:
-        for k, v in (("exists", False), ("output", None), ("overwrite", True)):
-            if case.get(k) != v:
+        for k, v in (("exists", False), ("output", None), ("overwrite", True), ("invert", False)):
+            if case.get(k) != v and k not in case.get("omit", []):
                 yield dict(case, **{k: v})
 
 
@@ -555,11 +896,38 @@ def _read_name(case):
         return stem + ".st.3"
     if rn in ("ali", "st", "rec", "mrc"):
         return stem + "." + rn
+    if rn == "cross":   # a name of the other container format
+        return stem + (".mrc" if name.endswith(".em") else ".em")
     return rn  # an unsupported name
 
 
 def _sha(path):
     return hashlib.sha1(open(path, "rb").read()).hexdigest()
+
+
+def _in_cryocat(e):
+    """G4: does the traceback pass through the code under test?"""
+    import traceback
+    for fr in reversed(traceback.extract_tb(e.__traceback__)):
+        if "/cryocat/" in fr.filename.replace("\\", "/"):
+            return f"{os.path.basename(fr.filename)}:{fr.lineno}"
+    return ""
+
+
+def _exc_obs(e):
+    return {"error": f"{type(e).__name__}: {str(e)[:300]}", "where": _in_cryocat(e)}
+
+
+def _arr_obs(b):
+    """what the library returned, with its own type information (G3: nothing is coerced)"""
+    if not isinstance(b, np.ndarray):
+        return dict(ndarray=False, pytype=type(b).__name__)
+    return dict(shape=list(b.shape), dtype=b.dtype.name, data=_bits(np.ascontiguousarray(b).reshape(-1)),
+                ndarray=True, pytype=type(b).__name__, writeable=bool(b.flags.writeable))
+
+
+def _same_array(a, pristine):
+    return a.shape == pristine.shape and a.dtype == pristine.dtype and _bits(np.ascontiguousarray(a).reshape(-1)) == _bits(pristine.reshape(-1))
 
 
 def run_impl(case):
@@ -569,20 +937,78 @@ def run_impl(case):
     td = tempfile.mkdtemp(prefix="c11_")
     try:
         with np.errstate(all="ignore"):
+            if case["kind"] == "seq":
+                return _run_seq(cryomap, case, td)
             return _run_rw(cryomap, case, td) if case["kind"] == "rw" else _run_conv(cryomap, case, td)
     finally:
         shutil.rmtree(td, ignore_errors=True)
 
 
-def _run_rw(cryomap, case, td):
+def _run_seq(cryomap, case, td):
+    """the steps run in one process, one directory; 'same-array' steps get the very same ndarray object"""
+    shared = {} if case["mode"] == "same-array" else None
+    outs = []
+    for st in case["steps"]:
+        try:
+            outs.append(_run_rw(cryomap, st, td, shared) if st["kind"] == "rw" else _run_conv(cryomap, st, td))
+        except Exception as e:
+            outs.append(_exc_obs(e))
+    return {"steps": outs}
+
+
+def _input_array(cryomap, case, td, out):
+    """the caller's array in the memory layout the case asks for"""
     a = build(case)
-    p = os.path.join(td, case["name"])
-    dt = NP[case["data_type"]] if case["data_type"] else None
+    layout = case.get("layout", "C")
+    if layout != "from_read":
+        return _apply_layout(a, layout)
+    # read() -> arithmetic -> write(): the array comes out of cryomap.read of a file made by the harness's own writer
+    own = os.path.join(td, "own_src." + ("em" if a.dtype == np.float64 or sum(case["shape"]) % 2 else "mrc"))
+    (write_em_own if own.endswith(".em") else write_mrc_own)(own, a)
+    b = cryomap.read(own)
+    out["src_read"] = _arr_obs(b)
+    out["src_read"]["f_contiguous"] = bool(getattr(b, "flags", None) is not None and b.flags.f_contiguous)
+    c = b * 1                       # processing that changes no value (keeps -0.0, NaN, inf) and keeps the layout
+    os.remove(own)
+    if c.shape != a.shape or c.dtype != a.dtype or not _same_array(c, a):
+        return a                    # reported by the judge from src_read; go on with the intended array
+    return c
+
+
+def _run_rw(cryomap, case, td, shared=None):
     out = {}
+    key = json_key(case) if shared is not None else None
+    if shared is not None and key in shared:
+        a, pristine = shared[key]           # the SAME object as in the earlier step
+        out["shared_object"] = True
+    else:
+        a = _input_array(cryomap, case, td, out)
+        pristine = np.ascontiguousarray(a).copy()
+        if shared is not None:
+            shared[key] = (a, pristine)
+    out["layout_flags"] = f"C={a.flags.c_contiguous} F={a.flags.f_contiguous}"
+    p = os.path.join(td, case["name"])
+    omit = case.get("omit", [])
+    kw = {}
+    if "transpose" not in omit:
+        kw["transpose"] = case["transpose"]
+    if "data_type" not in omit:
+        kw["data_type"] = NP[case["data_type"]] if case["data_type"] else None
+    rkw = {}
+    if "rtranspose" not in omit:
+        rkw["transpose"] = case["rtranspose"]
+    if "rdata_type" not in omit:
+        rkw["data_type"] = NP[case["rdata_type"]] if case["rdata_type"] else None
+    out["files_before"] = sorted(os.listdir(td))
     try:
-        cryomap.write(a.copy(), p, transpose=case["transpose"], data_type=dt)
-    except ValueError as e:
-        return {"write": {"reject": _err_kind(e)}, "files": sorted(os.listdir(td))}
+        ret = cryomap.write(a, p, **kw)
+        out["write_returns"] = type(ret).__name__
+    except Exception as e:
+        if not _in_cryocat(e):
+            raise
+        out["input_unchanged"] = _same_array(a, pristine)
+        return dict(out, write={"reject": _err_kind(e)}, files=sorted(os.listdir(td)))
+    out["input_unchanged"] = _same_array(a, pristine)
     out["files"] = sorted(os.listdir(td))
     if not os.path.exists(p):
         return dict(out, write={"reject": "no-file-written"})
@@ -591,14 +1017,35 @@ def _run_rw(cryomap, case, td):
     rp = os.path.join(td, rn)
     if rp != p:
         shutil.copyfile(p, rp)
-    rdt = NP[case["rdata_type"]] if case["rdata_type"] else None
     try:
-        b = cryomap.read(rp, transpose=case["rtranspose"], data_type=rdt)
-        out["back"] = dict(shape=list(b.shape), dtype=b.dtype.name, data=_bits(np.ascontiguousarray(b).reshape(-1)),
-                           ndarray=isinstance(b, np.ndarray), writeable=bool(b.flags.writeable))
-    except ValueError as e:
+        b = cryomap.read(rp, **rkw)
+        out["back"] = _arr_obs(b)
+        if case.get("reread"):
+            # G2: the caller edits the array it got, then reads the same path again (a cache handing out the same
+            # buffer, or keyed by path only, shows here)
+            if isinstance(b, np.ndarray) and b.size and b.flags.writeable:
+                b[...] = 99
+            out["file_unchanged_by_read"] = (parse_by_content(p).get("data") == out["write"].get("data"))
+            out["back2"] = _arr_obs(cryomap.read(rp, **rkw))
+    except Exception as e:
+        if not _in_cryocat(e):
+            raise
         out["back"] = {"reject": _err_kind(e)}
+    out["input_unchanged"] = out["input_unchanged"] and _same_array(a, pristine)
     return out
+
+
+def json_key(case):
+    import json
+    return json.dumps([case["shape"], case["dtype"], case["fill"], case.get("plant"), case.get("layout", "C")], sort_keys=True)
+
+
+def _conv_documented_out(case):
+    out_ext = "mrc" if case["which"] == "em2mrc" else "em"
+    if case["output"] is None:
+        cut = 2 if case["which"] == "em2mrc" else 3
+        return case["in_name"][:-cut] + out_ext
+    return case["output"]
 
 
 def _run_conv(cryomap, case, td):
@@ -608,26 +1055,37 @@ def _run_conv(cryomap, case, td):
     real_em = (case["which"] == "em2mrc")
     (write_em_own if real_em else write_mrc_own)(pin, a)
     out_ext = "mrc" if case["which"] == "em2mrc" else "em"
-    if case["output"] is None:
-        cut = 2 if case["which"] == "em2mrc" else 3
-        documented_out = case["in_name"][:-cut] + out_ext
-        pout = os.path.join(td, documented_out)
-    else:
-        pout = os.path.join(td, case["output"])
+    pout = os.path.join(td, _conv_documented_out(case))
     pre = None
-    if case["exists"] and pout != pin:
-        # pre-existing output with different content (2x2x2 of sevens in the right format when the name allows)
-        sent = np.full((2, 2, 2), 7, dtype=np.float32)
-        (write_mrc_own if out_ext == "mrc" else write_em_own)(pout, sent)
-        pre = _sha(pout)
+    if pout != pin:
+        if case["exists"]:
+            if not os.path.exists(pout):
+                # pre-existing output with different content (2x2x2 of sevens in the right format when the name allows)
+                sent = np.full((2, 2, 2), 7, dtype=np.float32)
+                (write_mrc_own if out_ext == "mrc" else write_em_own)(pout, sent)
+            pre = _sha(pout)
+        elif os.path.exists(pout):
+            os.remove(pout)
     in_sha = _sha(pin)
     fn = getattr(cryomap, case["which"])
-    res = {"input": (parse_em if real_em else parse_mrc)(pin)}
+    res = {"input": (parse_em if real_em else parse_mrc)(pin), "files_before": sorted(os.listdir(td))}
+    if pre is not None:
+        res["pre"] = parse_by_content(pout)
+    omit = case.get("omit", [])
+    kw = {}
+    if "invert" not in omit:
+        kw["invert"] = case["invert"]
+    if "overwrite" not in omit:
+        kw["overwrite"] = case["overwrite"]
+    if "output" not in omit:
+        kw["output_name"] = None if case["output"] is None else pout
     try:
-        fn(pin, invert=case["invert"], overwrite=case["overwrite"],
-           output_name=(None if case["output"] is None else pout))
+        ret = fn(pin, **kw)
         res["result"] = "ok"
-    except ValueError as e:
+        res["returns"] = type(ret).__name__
+    except Exception as e:
+        if not _in_cryocat(e):
+            raise
         res["result"] = _err_kind(e)
     res["files"] = sorted(os.listdir(td))
     res["input_unchanged"] = (_sha(pin) == in_sha)
@@ -645,16 +1103,27 @@ def _file_json(f):
 
 
 def _wire_ok(f):
-    return isinstance(f, dict) and "data" in f and f.get("dtype") in DTYPES and "bad" not in f
+    return isinstance(f, dict) and isinstance(f.get("data"), list) and f.get("dtype") in DTYPES and "bad" not in f
 
 
 def requests(case, obs):
+    if case["kind"] == "seq":
+        steps = obs.get("steps") if isinstance(obs, dict) else None
+        out = []
+        for i, st in enumerate(case["steps"]):
+            out += requests(st, steps[i] if steps and i < len(steps) else {})
+        return out
     if "error" in obs:
         obs = {}
+    omit = case.get("omit", [])
     if case["kind"] == "rw":
         a = build(case)
-        q = dict(op="roundtrip", arr=_arr_json(a), name=case["name"], transpose=case["transpose"], rtranspose=case["rtranspose"],
-                 rname=_read_name(case))
+        # an omitted keyword is omitted on the wire too: the model then takes the default of the current signature
+        q = dict(op="roundtrip", arr=_arr_json(a), name=case["name"], rname=_read_name(case))
+        if "transpose" not in omit:
+            q["transpose"] = case["transpose"]
+        if "rtranspose" not in omit:
+            q["rtranspose"] = case["rtranspose"]
         if case["data_type"]:
             q["data_type"] = case["data_type"]
         if case["rdata_type"]:
@@ -662,7 +1131,8 @@ def requests(case, obs):
         w, b = obs.get("write"), obs.get("back")
         if case["transpose"] and _wire_ok(w):
             q["file"] = _file_json(w)
-        if case["transpose"] == case["rtranspose"] and isinstance(b, dict) and "data" in b and b.get("dtype") in DTYPES and len(b["shape"]) == 3:
+        if case["transpose"] == case["rtranspose"] and isinstance(b, dict) and isinstance(b.get("data"), list) and b.get("dtype") in DTYPES \
+                and len(b["shape"]) == 3 and len(b["data"]) == b["shape"][0] * b["shape"][1] * b["shape"][2]:
             q["back"] = dict(shape=b["shape"], dtype=b["dtype"], data=b["data"])
         return [q]
     fs = []
@@ -675,9 +1145,17 @@ def requests(case, obs):
                        dtype=a.dtype.name, data=_bits(a.reshape(-1, order="F"))))
     out_name = obs.get("out_name")
     if obs.get("pre_existing") and out_name:
-        sev = _bits(np.full(8, 7, dtype=np.float32))
-        fs.append(dict(name=out_name, kind=("mrc" if case["which"] == "em2mrc" else "em"), dims=[2, 2, 2], dtype="float32", data=sev))
-    q = dict(op="convert", which=case["which"], fs=fs, map_name=case["in_name"], invert=case["invert"], overwrite=case["overwrite"])
+        pre = obs.get("pre")
+        if _wire_ok(pre):
+            fs.append(dict(name=out_name, **_file_json(pre)))
+        else:
+            sev = _bits(np.full(8, 7, dtype=np.float32))
+            fs.append(dict(name=out_name, kind=("mrc" if case["which"] == "em2mrc" else "em"), dims=[2, 2, 2], dtype="float32", data=sev))
+    q = dict(op="convert", which=case["which"], fs=fs, map_name=case["in_name"])
+    if "invert" not in omit:
+        q["invert"] = case["invert"]
+    if "overwrite" not in omit:
+        q["overwrite"] = case["overwrite"]
     if case["output"] is not None:
         q["output_name"] = case["output"]
     if obs.get("result") == "ok" and _wire_ok(obs.get("out")):
@@ -689,6 +1167,8 @@ def requests(case, obs):
 def _expected_rw(case):
     a = build(case)
     with np.errstate(all="ignore"):
+        # data_type: numpy's conversion of the array's own values (float -> int truncates the float64/float32 value
+        # toward zero, directly); then float64 -> float32
         e = a.astype(NP[case["data_type"]]) if case["data_type"] else a
         if e.dtype == np.float64:
             e = e.astype(np.float32)
@@ -704,11 +1184,14 @@ def _expected_rw(case):
 
 
 def _first_diff(x, y):
+    if not isinstance(x, list) or not isinstance(y, list):
+        return "no numeric payload"
     if len(x) != len(y):
         return f"lengths {len(x)} vs {len(y)}"
+    n = sum(1 for p, q in zip(x, y) if p != q)
     for i, (p, q) in enumerate(zip(x, y)):
         if p != q:
-            return f"flat index {i}: {core.b2f(p)!r} (bits {p:#x}) vs {core.b2f(q)!r} (bits {q:#x})"
+            return f"{n} of {len(x)} differ, first at flat index {i}: {core.b2f(p)!r} (bits {p:#x}) vs {core.b2f(q)!r} (bits {q:#x})"
     return "equal"
 
 
@@ -721,9 +1204,23 @@ def _name_verdicts(case):
     return w_ok, r_ok, ("em" if n.endswith(".em") else "mrc")
 
 
+def _judge_error(obs):
+    """G4: an exception is the implementation's only when its traceback passes through cryocat"""
+    if obs.get("where"):
+        return [dict(kind="spec", clause="raises", detail=obs["error"] + " @" + obs["where"])]
+    return [dict(kind="corr", clause="harness-or-library-raised", detail=obs["error"] + " (no frame inside cryocat)")]
+
+
 def judge(case, obs, resps):
     if "error" in obs:
-        return [dict(kind="spec", clause="raises", detail=obs["error"] + " @" + obs.get("where", ""))]
+        return _judge_error(obs)
+    if case["kind"] == "seq":
+        out = []
+        for i, st in enumerate(case["steps"]):
+            o = obs["steps"][i]
+            fs = _judge_error(o) if "error" in o else (_judge_rw if st["kind"] == "rw" else _judge_conv)(st, o, resps[i])
+            out += [dict(f, detail=f"step {i + 1}/{len(case['steps'])} ({case['mode']}): " + f["detail"]) for f in fs]
+        return out
     return _judge_rw(case, obs, resps[0]) if case["kind"] == "rw" else _judge_conv(case, obs, resps[0])
 
 
@@ -733,71 +1230,102 @@ def _judge_rw(case, obs, model):
     C = lambda clause, detail: out.append(dict(kind="corr", clause=clause, detail=detail))
     w_ok, r_ok, fmt = _name_verdicts(case)
     w = obs["write"]
+    call = f"write(a[{case['dtype']} {case['shape']} {case.get('layout', 'C')}], {case['name']!r}" + "".join(
+        f", {k}={case[k]}" for k in ("transpose", "data_type") if k not in case.get("omit", [])) + ")"
+    model_err = model.get("error") if isinstance(model, dict) else "no-response"
+    # ---- the caller's array is the caller's (G2)
+    if obs.get("input_unchanged") is False:
+        S("input-array-modified", f"{call} / read changed the array object passed in")
+    sr = obs.get("src_read")
+    if sr is not None:
+        a = build(case)
+        if not sr.get("ndarray") or sr.get("shape") != list(a.shape) or sr.get("dtype") != a.dtype.name or sr.get("data") != _bits(a.reshape(-1)):
+            S("read-of-foreign-file", f"read() of a {case['dtype']} {case['shape']} file made by the harness's writer returned "
+              f"{sr.get('pytype')} {sr.get('shape')} {sr.get('dtype')}: " + _first_diff(sr.get("data"), _bits(a.reshape(-1))))
     # ---- names
     if not w_ok:
         if "reject" not in w:
             S("accepts-unsupported-extension", f"write({case['name']!r}) produced {obs.get('files')}")
         elif w["reject"] != "bad-extension":
             S("wrong-refusal", f"write({case['name']!r}): {w['reject']}")
-        if "error" not in model or model["error"] != "reject:bad-extension":
+        if model_err != "reject:bad-extension":
             C("model-accepts-name", f"{case['name']!r}: {str(model)[:200]}")
         return out
     if "reject" in w:
-        S("rejects-supported-extension", f"write({case['name']!r}): {w['reject']}")
+        S("rejects-supported-extension", f"{call}: {w['reject']}")
         return out
-    if "error" in model:
-        C("model-rejects", f"{case['name']!r}: {model}")
-        return out
+    if model_err:
+        C("model-rejects", f"{case['name']!r}: {model_err}")
     exp = _expected_rw(case)
-    # ---- bytes on disk
+    # ---- bytes on disk (independent parsers + numpy; no model involved)
     if w.get("bad"):
         S("file-header", f"unparseable {w.get('kind')} file: {w['bad']}")
         return out
     if w["kind"] != fmt:
         S("file-format", f"{case['name']!r} holds a {w['kind']} file, documented {fmt}")
+    # facts about mrcfile / emfile (probed on every run), not clauses of the statement: never `spec`
     if w["kind"] == "mrc" and not (w["mapcrs"] == [1, 2, 3] and w["nsymbt"] == 0 and w["map_tag_ok"] and w["little_endian"]):
-        S("file-header", f"mapc/r/s={w['mapcrs']} nsymbt={w['nsymbt']} tag_ok={w['map_tag_ok']} le={w['little_endian']}")
+        C("library-header-fact", f"mapc/r/s={w['mapcrs']} nsymbt={w['nsymbt']} tag_ok={w['map_tag_ok']} le={w['little_endian']}")
     if w["kind"] == "em" and not w["little_endian"]:
-        S("file-header", f"EM machine byte {w['machine']}")
+        C("library-header-fact", f"EM machine byte {w['machine']}")
     if w["dims"] != exp["dims"]:
-        S("header-dims", f"header nx,ny,nz={w['dims']}, array shape {case['shape']} (transpose={case['transpose']}) demands {exp['dims']}")
+        S("header-dims", f"{call}: header nx,ny,nz={w['dims']}, the array shape demands {exp['dims']}")
     elif not w.get("size_ok"):
         S("payload-size", f"payload does not hold nx*ny*nz voxels of {w['dtype']}")
     if w["dtype"] != exp["dtype"]:
-        S("file-dtype", f"file holds {w['dtype']}, documented {exp['dtype']} (array {case['dtype']}, data_type={case['data_type']})")
+        S("file-dtype", f"{call}: file holds {w['dtype']}, documented {exp['dtype']}")
     elif w["dims"] == exp["dims"] and w["data"] != exp["data"]:
-        S("x-fastest-voxels", "payload differs from the x-fastest flattening of the array: " + _first_diff(w["data"], exp["data"]))
+        S("x-fastest-voxels", f"{call}: payload differs from the x-fastest flattening of the array: " + _first_diff(w["data"], exp["data"]))
     if case["transpose"] and "check_write" in model and not (model["check_write"] and model["check_write_dtype"]):
         S("verified-checker-rejects-file", f"checkXFastest={model['check_write']} dtype_ok={model['check_write_dtype']} on header {w['dims']} {w['dtype']}")
-    mf = model["file"]
-    if (mf["kind"], mf["dims"], mf["dtype"]) != (w["kind"], w["dims"], w["dtype"]) or mf["data"] != w.get("data"):
-        C("file-vs-model", f"model file {mf['kind']} {mf['dims']} {mf['dtype']} vs real {w['kind']} {w['dims']} {w['dtype']}; data: " + _first_diff(mf["data"], w.get("data", [])))
+    if not model_err:
+        mf = model["file"]
+        if (mf["kind"], mf["dims"], mf["dtype"]) != (w["kind"], w["dims"], w["dtype"]) or mf["data"] != w.get("data"):
+            C("file-vs-model", f"model file {mf['kind']} {mf['dims']} {mf['dtype']} vs real {w['kind']} {w['dims']} {w['dtype']}; data: " + _first_diff(mf["data"], w.get("data", [])))
     # ---- read back
     b = obs["back"]
-    ma = model["arr"]
+    ma = {} if model_err else model["arr"]
+    rcall = f"read({_read_name(case)!r}" + "".join(f", {k[1:]}={case[k]}" for k in ("rtranspose", "rdata_type") if k not in case.get("omit", [])) + ")"
     if not r_ok:
         if "reject" not in b:
-            S("reads-unsupported-extension", f"read({_read_name(case)!r}) returned an array")
+            S("reads-unsupported-extension", f"{rcall} returned an array")
         elif b["reject"] != "bad-extension":
-            S("wrong-refusal", f"read({_read_name(case)!r}): {b['reject']}")
-        if ma.get("error") != "reject:bad-extension":
+            S("wrong-refusal", f"{rcall}: {b['reject']}")
+        if not model_err and ma.get("error") != "reject:bad-extension":
             C("model-reads-name", f"{_read_name(case)!r}: {str(ma)[:200]}")
         return out
-    if "reject" in b:
-        S("read-rejects-supported-name", f"read({_read_name(case)!r}): {b['reject']}")
+    if case.get("rname") == "cross":
+        # the reader of the other container format is handed the file: mrcfile / emfile raise (which exception is theirs);
+        # nothing in the statement covers it, so a returned array is a disagreement with the model only
+        if "reject" not in b:
+            C("cross-format-read-returned-array", f"{rcall} on a {w['kind']} file returned {b.get('shape')} {b.get('dtype')}")
+        if not model_err and ma.get("error") != "reject:bad-format":
+            C("model-cross-format", str(ma)[:200])
         return out
-    if b["shape"] != exp["back_shape"]:
-        S("roundtrip-shape", f"read back shape {b['shape']}, written {case['shape']} (transpose {case['transpose']}/{case['rtranspose']}) demands {exp['back_shape']}")
-    elif b["data"] != exp["back_data"]:
-        S("roundtrip-voxels", "read back voxels differ: " + _first_diff(b["data"], exp["back_data"]))
-    if b["dtype"] != exp["back_dtype"]:
-        S("roundtrip-dtype", f"read back dtype {b['dtype']}, documented {exp['back_dtype']}")
+    if "reject" in b:
+        S("read-rejects-supported-name", f"{rcall}: {b['reject']}")
+        return out
+    for tag, bb in (("", b), ("second read after the caller edited the first result: ", obs.get("back2"))):
+        if bb is None:
+            continue
+        if not bb.get("ndarray"):
+            S("roundtrip-dtype", f"{tag}{rcall} returned a {bb.get('pytype')}, not a numpy array")
+            continue
+        if bb["shape"] != exp["back_shape"]:
+            S("roundtrip-shape", f"{tag}{rcall} after {call}: shape {bb['shape']}, the statement demands {exp['back_shape']}")
+        elif bb["data"] != exp["back_data"]:
+            S("roundtrip-voxels", f"{tag}{rcall} after {call}: voxels differ: " + _first_diff(bb["data"], exp["back_data"]))
+        if bb["dtype"] != exp["back_dtype"]:
+            S("roundtrip-dtype", f"{tag}{rcall} after {call}: dtype {bb['dtype']}, documented {exp['back_dtype']}")
+    if obs.get("file_unchanged_by_read") is False:
+        S("read-modifies-file", f"{rcall}: the file changed after the caller edited the returned array")
     if "check_back" in model and not (model["check_back"] and model["check_back_dtype"]):
         S("verified-checker-rejects-roundtrip", f"checkSameVoxels={model['check_back']} dtype_ok={model['check_back_dtype']}")
-    if "error" in ma:
-        C("model-read-rejects", str(ma))
-    elif (ma["shape"], ma["dtype"]) != (b["shape"], b["dtype"]) or ma["data"] != b["data"]:
-        C("read-vs-model", f"model {ma['shape']} {ma['dtype']} vs real {b['shape']} {b['dtype']}; data: " + _first_diff(ma["data"], b["data"]))
+    if not model_err:
+        if "error" in ma:
+            C("model-read-rejects", str(ma))
+        elif b.get("ndarray") and ((ma["shape"], ma["dtype"]) != (b["shape"], b["dtype"]) or ma["data"] != b["data"]):
+            C("read-vs-model", f"model {ma['shape']} {ma['dtype']} vs real {b['shape']} {b['dtype']}; data: " + _first_diff(ma["data"], b["data"]))
     return out
 
 
@@ -822,6 +1350,9 @@ def _judge_conv(case, obs, model):
     C = lambda clause, detail: out.append(dict(kind="corr", clause=clause, detail=detail))
     verdict, oname = _expected_conv(case)
     inp = obs["input"]
+    omit = case.get("omit", [])
+    call = f"{case['which']}({case['in_name']!r}" + "".join(
+        f", {k if k != 'output' else 'output_name'}={case[k]!r}" for k in ("invert", "overwrite", "output") if k not in omit) + ")"
     if verdict == "ok" and obs.get("pre_existing") and not case["overwrite"]:
         verdict = "exists"
     if not obs.get("input_unchanged"):
@@ -829,24 +1360,25 @@ def _judge_conv(case, obs, model):
     if verdict != "ok":
         if obs["result"] == "ok":
             S("no-refusal" if verdict != "exists" else "overwrites-when-told-not-to",
-              f"{case['which']}({case['in_name']!r}, overwrite={case['overwrite']}, output_name={case['output']!r}) returned normally; documented refusal: {verdict}")
+              f"{call} with {obs.get('out_name')} present returned normally; documented refusal: {verdict}")
         elif obs["result"] != verdict:
-            S("wrong-refusal", f"raised {obs['result']}, documented {verdict}")
+            S("wrong-refusal", f"{call} raised {obs['result']}, documented {verdict}")
         if verdict == "exists" and not obs.get("out_sha_same_as_pre"):
-            S("overwrites-when-told-not-to", f"existing {obs.get('out_name')} was modified although overwrite=False")
+            S("overwrites-when-told-not-to", f"{call}: existing {obs.get('out_name')} was modified although overwrite=False")
         if model.get("error") != "reject:" + verdict:
             C("model-refusal", f"model {str(model)[:200]} vs documented {verdict}")
         return out
     if obs["result"] != "ok":
-        S("refuses-valid-call", f"{case['which']}({case['in_name']!r}, overwrite={case['overwrite']}, output_name={case['output']!r}, exists={obs.get('pre_existing')}): {obs['result']}")
+        S("refuses-valid-call", f"{call} (output present before: {obs.get('pre_existing')}): {obs['result']}")
         return out
     o = obs.get("out")
+    new_files = set(obs["files"]) - set(obs.get("files_before", []))
     if o is None or oname not in obs["files"]:
-        S("output-name", f"documented output {oname!r}; directory holds {obs['files']}")
+        S("output-name", f"{call}: documented output {oname!r}; new files in the directory: {sorted(new_files)}")
         return out
-    extra = set(obs["files"]) - {case["in_name"], oname}
+    extra = new_files - {case["in_name"], oname}
     if extra:
-        S("stray-files", f"{sorted(extra)}")
+        S("stray-files", f"{call}: {sorted(extra)}")
     if o.get("bad"):
         S("file-header", f"unparseable output: {o['bad']}")
         return out
@@ -854,18 +1386,22 @@ def _judge_conv(case, obs, model):
     if o["kind"] != fmt:
         S("file-format", f"output is a {o['kind']} file")
     if o["kind"] == "mrc" and not (o["mapcrs"] == [1, 2, 3] and o["nsymbt"] == 0 and o["map_tag_ok"] and o["little_endian"]):
-        S("file-header", f"mapc/r/s={o['mapcrs']} nsymbt={o['nsymbt']}")
+        C("library-header-fact", f"mapc/r/s={o['mapcrs']} nsymbt={o['nsymbt']}")
     if o["dims"] != inp["dims"] or not o.get("size_ok"):
-        S("header-dims", f"output nx,ny,nz={o['dims']} vs input {inp['dims']}")
-    if o["dtype"] != inp["dtype"]:
-        S("file-dtype", f"output {o['dtype']} vs input {inp['dtype']}")
+        S("header-dims", f"{call}: output nx,ny,nz={o['dims']} vs input {inp['dims']}")
+    # float64 (EM only) is narrowed to float32 by write(); everything else keeps its type
     a = build(case)
     with np.errstate(all="ignore"):
-        want = _bits((-a if case["invert"] else a).reshape(-1, order="F"))
-    if o["dims"] == inp["dims"] and o["data"] != want:
-        S("voxels-negated" if case["invert"] else "voxels-preserved", "output payload: " + _first_diff(o["data"], want))
-    if "check_convert" in model and not (model["check_convert"] and model["check_convert_dtype"]):
-        S("verified-checker-rejects-conversion", f"checkSameFileVoxels={model['check_convert']} dtype_ok={model['check_convert_dtype']}")
+        e = -a if case["invert"] else a
+        if e.dtype == np.float64:
+            e = e.astype(np.float32)
+        want = _bits(e.reshape(-1, order="F"))
+    if o["dtype"] != e.dtype.name:
+        S("file-dtype", f"{call}: output {o['dtype']}, input {inp['dtype']} demands {e.dtype.name}")
+    elif o["dims"] == inp["dims"] and o["data"] != want:
+        S("voxels-negated" if case["invert"] else "voxels-preserved", f"{call}: output payload: " + _first_diff(o["data"], want))
+    if "check_convert" in model and not model["check_convert"]:
+        S("verified-checker-rejects-conversion", f"{call}: checkConverted=false")
     if "error" in model:
         C("model-refuses", str(model))
     else:
@@ -874,13 +1410,16 @@ def _judge_conv(case, obs, model):
             C("model-output-name", f"{model['out_name']!r} vs {oname!r}")
         if (mf["kind"], mf["dims"], mf["dtype"]) != (o["kind"], o["dims"], o["dtype"]) or mf["data"] != o["data"]:
             C("file-vs-model", f"model {mf['kind']} {mf['dims']} {mf['dtype']} vs real {o['kind']} {o['dims']} {o['dtype']}; data: " + _first_diff(mf["data"], o["data"]))
-        if sorted(model["names"]) != sorted(obs["files"]):
-            C("files-vs-model", f"{sorted(model['names'])} vs {obs['files']}")
+        unrelated = set(obs.get("files_before", [])) - {case["in_name"], oname}
+        if sorted(model["names"]) != sorted(set(obs["files"]) - unrelated):
+            C("files-vs-model", f"{sorted(model['names'])} vs {sorted(set(obs['files']) - unrelated)}")
     return out
 
 
 # ------------------------------------------------------------------ evidence
 def nontrivial(case, obs):
+    if case["kind"] == "seq":
+        return "error" not in obs and all(nontrivial(st, o) for st, o in zip(case["steps"], obs.get("steps", [])))
     x, y, z = case["shape"]
     if len({x, y, z}) < 3 or x * y * z < 24 or "error" in obs:
         return False
@@ -895,6 +1434,15 @@ def _size_bin(n):
 
 
 def stats(case, obs, resps):
+    if case["kind"] == "seq":
+        d = {"kind": "seq", "seq_mode": case["mode"], "seq_steps": len(case["steps"])}
+        for st, o, r in zip(case["steps"], obs.get("steps", []), resps):
+            if "error" not in o:
+                for k, v in stats(st, o, [r]).items():
+                    if k != "kind":
+                        d.setdefault(k, [])
+                        d[k] += v if isinstance(v, list) else [v]
+        return d
     x, y, z = case["shape"]
     d = {"kind": case["kind"], "dtype": case["dtype"], "axis_size": [_size_bin(v) for v in (x, y, z)],
          "shape_class": "cubic" if x == y == z else ("two-equal" if len({x, y, z}) == 2 else "all-distinct"),
@@ -907,6 +1455,15 @@ def stats(case, obs, resps):
         d["data_type(w)"] = str(case["data_type"])
         d["data_type(r)"] = str(case["rdata_type"])
         d["read_name"] = case.get("rname", "same") if r_ok else "unsupported"
+        d["layout"] = case.get("layout", "C") + (" " + obs["layout_flags"] if "layout_flags" in obs else "")
+        om = case.get("omit", [])
+        d["write_call"] = "write(a, p)" if {"transpose", "data_type"} <= set(om) else ("some keywords omitted" if {"transpose", "data_type"} & set(om) else "all keywords explicit")
+        d["read_call"] = "read(p)" if {"rtranspose", "rdata_type"} <= set(om) else ("some keywords omitted" if {"rtranspose", "rdata_type"} & set(om) else "all keywords explicit")
+        d["int_cast_of"] = ("non-integral values" if case["fill"].get("mode") == "frac" else "integral values") if any(
+            t in IRANGE for t in (case["data_type"], case["rdata_type"]) if t) and case["dtype"] not in IRANGE else "none"
+        d["reread_after_edit"] = str(bool(case.get("reread")))
+        if "back" in obs and isinstance(obs["back"], dict) and "dtype" in obs["back"]:
+            d["returned_type"] = f"{obs['back'].get('pytype')}[{obs['back']['dtype']}]"
         if isinstance(obs.get("write"), dict):
             d["outcome"] = "write-refused:" + obs["write"]["reject"] if "reject" in obs["write"] else (
                 "read-refused:" + obs["back"]["reject"] if "reject" in obs.get("back", {}) else "round-trip")
@@ -916,12 +1473,18 @@ def stats(case, obs, resps):
         d["which"] = case["which"]
         d["invert"] = str(case["invert"])
         d["overwrite/exists"] = f"{case['overwrite']}/{case['exists']}"
+        om = case.get("omit", [])
+        d["conv_call"] = f"{case['which']}(p)" if len(om) == 3 else ("some keywords omitted" if om else "all keywords explicit")
+        d["stem_tail"] = "ends in e/m/r/c/." if case["in_name"].rsplit(".", 1)[0][-1:] in "emrc." else "other"
+        d["invert&refuse"] = str(bool(case["invert"] and not case["overwrite"] and obs.get("pre_existing")))
         d["output"] = "default" if case["output"] is None else ("explicit" if _expected_conv(case)[0] != "bad-output-name" else "explicit-bad")
         d["outcome"] = obs.get("result", "error")
     return d
 
 
 def sample_view(case):
+    if case["kind"] == "seq":
+        return dict(kind="seq", mode=case["mode"], steps=[sample_view(st) for st in case["steps"]])
     v = {k: case[k] for k in case if k not in ("plant",)}
     v["planted_specials"] = len(case.get("plant", []))
     return v
@@ -945,11 +1508,17 @@ def probes(rng):
             m = parse_mrc(p)
             ok = m["dims"] == [5, 3, 2] and m["dtype"] == dt and m["data"] == _bits(zyx.reshape(-1)) and m["size_ok"]
             out.append(dict(name=f"parse_mrc-agrees-with-mrcfile[{dt}]", ok=bool(ok), detail=str(m["dims"])))
+            # library facts the layout claim rests on (not clauses of the statement): axis mapping 1,2,3, no extended
+            # header, 'MAP ' tag, little-endian machine stamp
+            ok = m["mapcrs"] == [1, 2, 3] and m["nsymbt"] == 0 and m["map_tag_ok"] and m["little_endian"]
+            out.append(dict(name=f"mrcfile-header-facts(mapc/r/s=1,2,3 nsymbt=0 MAP little-endian)[{dt}]", ok=bool(ok),
+                            detail=f"{m['mapcrs']} {m['nsymbt']} {m['map_tag_ok']} {m['little_endian']}"))
             p = os.path.join(td, "p.em")
             emfile.write(p, zyx, overwrite=True)
             m = parse_em(p)
             ok = m["dims"] == [5, 3, 2] and m["dtype"] == dt and m["data"] == _bits(zyx.reshape(-1)) and m["size_ok"]
             out.append(dict(name=f"parse_em-agrees-with-emfile[{dt}]", ok=bool(ok), detail=str(m["dims"])))
+            out.append(dict(name=f"emfile-header-facts(machine byte 6 = little-endian)[{dt}]", ok=bool(m["little_endian"]), detail=str(m["machine"])))
             xyz = np.ascontiguousarray(zyx.transpose(2, 1, 0))
             p = os.path.join(td, "q.mrc")
             write_mrc_own(p, xyz)
@@ -960,6 +1529,31 @@ def probes(rng):
             write_em_own(p, xyz)
             ok = np.array_equal(emfile.read(p)[1], zyx)
             out.append(dict(name=f"own-em-writer-read-by-emfile[{dt}]", ok=bool(ok), detail=""))
+        # float64: EM holds it (type code 9), the harness writer is read back by emfile, emfile's own float64 file parses
+        zyx = (np.arange(2 * 3 * 5).reshape(2, 3, 5) / 7.0 - 1.3)
+        p = os.path.join(td, "d.em")
+        write_em_own(p, np.ascontiguousarray(zyx.transpose(2, 1, 0)))
+        got = emfile.read(p)[1]
+        out.append(dict(name="own-em-writer-read-by-emfile[float64]", ok=bool(got.dtype == np.float64 and np.array_equal(got, zyx)), detail=str(got.dtype)))
+        emfile.write(p, zyx, overwrite=True)
+        m = parse_em(p)
+        out.append(dict(name="parse_em-agrees-with-emfile[float64]", ok=bool(m["dtype"] == "float64" and m["data"] == _bits(zyx.reshape(-1))), detail=str(m.get("dtype"))))
+        # a file of the other container format is refused by the libraries (Model.read: badFormat)
+        for src_ext, via in ((".em", ".mrc"), (".mrc", ".em")):
+            zyx = np.arange(24, dtype=np.float32).reshape(2, 3, 4)
+            p = os.path.join(td, "c" + src_ext)
+            (emfile.write if src_ext == ".em" else mrcfile.write)(p, zyx, overwrite=True)
+            q = os.path.join(td, "cross" + via)
+            shutil.copyfile(p, q)
+            try:
+                (lambda: mrcfile.open(q).data)() if via == ".mrc" else emfile.read(q)
+                out.append(dict(name=f"library-refuses-{src_ext}-file-named{via}", ok=False, detail="no exception"))
+            except Exception as e:
+                out.append(dict(name=f"library-refuses-{src_ext}-file-named{via}", ok=True, detail=type(e).__name__))
+        # numpy float -> int16/int8: truncation toward zero of the value itself (Drv.cast)
+        v = np.array([2.99999999, -7.99999999, 1023.99999999, -0.5, 0.9999999999, -126.75])
+        ok = v.astype(np.int16).tolist() == [2, -7, 1023, 0, 0, -126] and v.astype(np.float32).astype(np.int16).tolist()[:3] == [3, -8, 1024]
+        out.append(dict(name="numpy-float-to-int-cast-truncates-toward-zero", ok=bool(ok), detail=str(v.astype(np.int16).tolist())))
     except Exception as e:
         out.append(dict(name="library-probes", ok=False, detail=f"{type(e).__name__}: {e}"))
     finally:
@@ -970,11 +1564,15 @@ def probes(rng):
 LEVEL_TEXT = ("Lean 4 theorems about an executable model of cryomap.write/read/em2mrc/mrc2em for every 3-D shape (no cube assumption, no size bound): "
               "x-fastest offset is a bijection of the box (offset_lt/injective/surjective), write_spec (header nx,ny,nz = shape, voxel (i,j,k) at "
               "i+nx*(j+ny*k), dtype rule, format by extension), read_write / read_write_untransposed / read_untransposed_of_write (round trip for any "
-              "shape and data_type), convert_spec / em2mrc_spec / mrc2em_spec (voxels kept or negated, default names, refusal when the output exists "
-              "and overwrite=False), invert_invert, sound (and complete) verified checkers run on the real files; tied to the source by regenerated "
-              "anchors (transpose tuples and guards, step order, float64->float32 narrowing, extension tables, reader pattern, converter suffixes / "
-              "slices / factor / call shapes) and by a bit-exact differential run of the real functions against the model, the bytes being parsed by "
-              "the harness's own MRC/EM parsers")
+              "shape and data_type, for a file of the container format its name announces; read_cross_format: refused otherwise), writeKw_default / "
+              "readKw_default / convertKw_default (the keyword-less calls are the documented ones, by the signature defaults of the current source), "
+              "convert_spec / em2mrc_spec / mrc2em_spec (voxels kept or negated, float64 narrowed, default names, refusal when the output exists "
+              "and overwrite=False), checkConverted_accepts / _sound (the driver's converter checker is the theorem's `converted`), invert_invert, "
+              "sound (and complete) verified checkers run on the real files; tied to the source by regenerated, renaming-insensitive anchors "
+              "(signatures with defaults, normalised bodies of write/read/em2mrc/mrc2em/invert_contrast, the only axis-permuting expression and "
+              "its guard, step order, float64->float32 narrowing, extension tables, reader pattern, converter suffixes / slices / factor / call "
+              "shapes) and by a bit-exact differential run of the real functions against the model, the bytes being parsed by the harness's own "
+              "MRC/EM parsers")
 LEVEL_NOTE = ("trusted: Lean kernel; translator anchors; harness MRC/EM parsers and writers (cross-checked against mrcfile/emfile by probes on every run); "
               "mrcfile/emfile store the array they are given (checked byte-wise); numpy float32 cast = Float.toFloat32 (bit-exact each run); the file "
               "system is modelled as a name->content map, byte-level preservation on refusal is validated by hash, not proved")
